@@ -781,7 +781,4 @@ KNOWN = [
      "what": "concat(array|list, items) with an item that cannot be assigned raises after the preceding items were appended",
      "case": {"fam": "seq", "strict": True, "base": {"kind": "Array", "et": "Int", "ops": [["push", "i:1"], ["push", "i:2"]]},
               "at": 1000, "fault": "concat-wrongitem", "idx": "len"}},
-    {"key": "print-too-few-partial-output",
-     "what": "print_to with too few arguments raises FormatError after the conversions before the missing argument were written to the sink",
-     "case": {"fam": "str", "strict": True, "init": "6162", "fault": "print-too-few", "suffix": "78"}},
 ]
